@@ -388,5 +388,8 @@ PROPS["C01"] = {
         V("InboundStream ordered release (Verus)", "sctp_inbound", "quick", "proof", ["InboundStream::enqueue", "InboundStream::drain_ready"],
           "drain_ready releases exactly the maximal run next_ssn, next_ssn+1, .. (mod 2^16) in that order, removes exactly those keys, advances next_ssn by the count and re-establishes wf; enqueue == insert then drain (the accepted message is never lost; the early return under the 128-entry cap is unreachable under wf); termination for all 65536 keys",
           min_verified=5),
+        V("delivered sequence is a prefix for every arrival history (Verus lemma)", "sctp_inbound", "quick", "proof", ["InboundStream::enqueue"],
+          "lemma delivered_is_prefix over the enqueue contract: for ANY subset of the sender's messages (N <= 65535, SSNs key(s0,i) incl. wrap) arriving in ANY order, after every arrival the application has received exactly msgs[0..d) — in order, nothing duplicated, altered or fabricated — where d is the length of the contiguous arrived prefix (induction over the arrival sequence; step lemma step_preserves; satisfiability witness exec_ok_is_satisfiable)",
+          min_verified=15),
     ],
 }
